@@ -143,11 +143,37 @@ def r5_routes_dropped_only_with_peer(cx):
                  "remove_claims(addr) is called only where the peer at addr was removed or is known to be absent%s" % ((": " + why) if why else ""))
 
 
+def r7_finished_handshake_not_restarted(cx):
+    """A replayed ping / pong / peng must not move a handshake object that has already finished (WAITING_TO_CLOSE,
+    the 60 s linger of the initiator inside an established peer, or CLOSING) back into the protocol: the object would
+    wait for a message the replaying party cannot produce, time out after 120 retries, and the crypto tick would
+    then remove the healthy peer.  Rule: in InitState::handle_init every store of a stage constant to `next_stage` is
+    dominated by an edge on which the stored stage equals the stage carried by the message (the in-sequence case),
+    or equals STAGE_PONG (the dual-open tie-break) - never by a test for a terminal stage."""
+    prog = cx.prog
+    from ..region import reach_assuming_field
+    hi = A.method(prog, "InitState", "handle_init")
+    cx.touch(hi)
+    terminal = {"WAITING_TO_CLOSE": prog.const_value("WAITING_TO_CLOSE"), "CLOSING": prog.const_value("CLOSING")}
+    stores = [(bi, s0) for bi, si, s0 in hi.stmts() if s0["k"] == "assign" and place_is_field(s0["place"], "InitState", "next_stage")]
+    cx.floor("stage-stores", len(stores), 3, "stores to next_stage in handle_init")
+    # the assumption is about the stage on entry: the stores end it
+    sblocks = [bi for bi, _s in stores]
+    for name, val in sorted(terminal.items()):
+        reach = reach_assuming_field(hi, lambda r: place_is_field(r, "InitState", "next_stage"), val, stop_blocks=sblocks)
+        hit = [(bi, s0) for bi, s0 in stores if bi in reach]
+        cx.check("no-restart-from:" + name, not hit, site_of(hi, span=hit[0][1]["span"]) if hit else site_of(hi),
+                 "with next_stage = %s (%d) on entry no path of handle_init stores a new stage: a datagram cannot restart a finished handshake" % (name, val))
+        # sanity of the pruning: the function can still return under the assumption
+        cx.check("returns-from:" + name, any(x in reach for x in hi.cfg.exits), site_of(hi), "handle_init returns when entered in stage %s" % name)
+
+
 RULES = [
     ("C09.R1", r1_who_may_remove, "who may remove a peer: timeout sweep, CLOSE arm, crypto tick failure"),
     ("C09.R2", r2_dispatch_priority, "dispatch priority: pending handshake objects see only handshake datagrams or non-peers"),
     ("C09.R3", r3_removal_attribution, "a peer is removed in the crypto tick only for its own failure (provenance)"),
     ("C09.R5", r5_routes_dropped_only_with_peer, "routes of an address are dropped only together with (or in the absence of) its peer"),
+    ("C09.R7", r7_finished_handshake_not_restarted, "a finished (lingering / closing) handshake object is never restarted by a datagram"),
     ("C09.R6", c02.r5_open_checked_before_state, "the receive window of a connection is advanced only behind a successful AEAD open (= C02.R5): a forged datagram cannot move it"),
 ]
 
